@@ -158,7 +158,8 @@ def check_kernels(res, L, rng, tag, tier, jit):
             Tm = np.empty(dense_.shape, dtype=object)
             for idx_ in np.ndindex(*dense_.shape):
                 Tm[idx_] = Fraction(float(dense_[idx_]))
-            fm = cf.get_mult_function(mt, L._basis_blade_order.grades)
+            allg = list(range(n + 1))
+            fm = cf.get_mult_function(mt, L._basis_blade_order.grades) if nm_ == 'half' else cf.get_mult_function(mt, L._basis_blade_order.grades, grades_a=allg, grades_b=allg)
             a, ea = operand(rng, N, 'float64', 'dense')
             b, eb = operand(rng, N, 'float64', 'half')
             out = fm(a, b)
@@ -184,11 +185,12 @@ def check_kernels(res, L, rng, tag, tier, jit):
         ca, cb = kinds[int(rng.integers(len(kinds)))], kinds[int(rng.integers(len(kinds)))]
         res.count('grade_container_' + (getattr(ca, '__name__', 'ndarray') if not callable(ca) or hasattr(ca, '__name__') else 'ndarray'))
         f = gens[which](grades_a=ca(ga), grades_b=cb(gb))
-        dt = ['int64', 'float64'][int(rng.integers(2))]
+        dt = ['int64', 'float64', 'float32', 'int32', 'complex64'][int(rng.integers(5))]
         a, ea = operand(rng, N, dt, 'dense')
         b, eb = operand(rng, N, dt, ['dense', 'half'][int(rng.integers(2))])
-        pa = [x if gr[i] in ga else 0 for i, x in enumerate(to_obj(ea, 'f'))]
-        pb = [x if gr[i] in gb else 0 for i, x in enumerate(to_obj(eb, 'f'))]
+        kk_ = 'c' if dt.startswith('complex') else 'f'
+        pa = [x if gr[i] in ga else 0 for i, x in enumerate(to_obj(ea, kk_))]
+        pb = [x if gr[i] in gb else 0 for i, x in enumerate(to_obj(eb, kk_))]
         exp = contraction(T, pa, pb)
         out = f(a, b)
         res.case(('kernel-grades', tag, which, tuple(ga), tuple(gb), str(ea), str(eb)), nontrivial=any(pa) and any(pb))
@@ -197,6 +199,9 @@ def check_kernels(res, L, rng, tag, tier, jit):
             res.violate(f'{which}_func_generator(grades_a, grades_b) is not the contraction restricted to the requested grades',
                         dict(site, table=which, grades_a=ga, grades_b=gb, a=[str(x) for x in ea], b=[str(x) for x in eb]),
                         np.asarray(out).tolist(), [str(x) for x in exp], dict(site, op=which + '_func_generator'))
+        if out.dtype != np.dtype(dt):
+            res.violate('grade-restricted kernel result dtype differs from the common operand dtype',
+                        dict(site, table=which, grades_a=ga, grades_b=gb, dtype=dt), str(out.dtype), dt, dict(site, op=which + '_func_generator-dtype', dtype=dt))
     # one-sided grade lists fall back to the unrestricted kernel
     f = L.gmt_func_generator(grades_a=[0])
     a, ea = operand(rng, N, 'int64', 'dense')
